@@ -1,4 +1,4 @@
-CONSTANTS MaxLen = 4  SubLen = 6  NoNsFirst = TRUE
+CONSTANTS MaxLen = 3  SubLen = 4  NoNsFirst = FALSE
 INIT InitS
 NEXT NextS
 INVARIANT Ordered
